@@ -147,3 +147,16 @@ class SharedMetaV2(V3Sig):
             SHARED_META[key] = _meta(cfg or {})
         self.meta = SHARED_META[key]
         return self.meta
+
+
+SHARED_MODELS: Dict[str, Dict[str, Any]] = {}
+
+
+class SharedModels(V3Sig):
+    """A simulator class with ONE module-level model table (``MODELS = {...}`` at module level) whose type is
+    chosen per instance in init()."""
+
+    def init(self, sid, time_resolution=None, typ=None, **kw):
+        self.sid = sid
+        self.meta = {"api_version": "3.0", "type": typ, "models": SHARED_MODELS}
+        return self.meta
